@@ -219,8 +219,10 @@ def Spec.prereleases (sp : Spec) (override : Option Bool) : R Bool :=
   | none =>
     if sp.op != .ne then do
       let vtext := if sp.op == .eq && endsWith sp.ver [46, 42] then sp.ver.take (sp.ver.length - 2) else sp.ver
-      let v ← version vtext
-      pure v.isPre
+      -- `try: Version(version) except InvalidVersion: return False` (the text of `===` need not be a version)
+      match scan vtext with
+      | some v => pure v.isPre
+      | none => pure false
     else pure false
 
 /-- `Specifier.contains(item, prereleases)` for an already coerced candidate -/
